@@ -82,6 +82,25 @@ class Report:
                 return k
         return None
 
+    def judge(self):
+        """(exit code, messages) this report would produce -- the verdict of the real check, without printing or writing (used by the self-test
+        to judge behaviour-preserving variants exactly as a run on such a tree would be judged)"""
+        violations = [o for o in self.obs if o['verdict'] == REFUTED and not self._is_known(o)]
+        msgs = [f"{o['rule']} {o['key']}" for o in violations]
+        per_rule: dict[str, int] = {}
+        for o in self.obs: per_rule[o['rule']] = per_rule.get(o['rule'], 0) + 1
+        by_key = {(o['rule'], o['key']): o for o in self.obs}
+        errs = list(self.errors)
+        for rid, spec in self.baseline.get('rules', {}).items():
+            if per_rule.get(rid, 0) < spec.get('min', 0): errs.append(f"rule={rid} matched {per_rule.get(rid, 0)} instances, baseline confirmed {spec['min']}")
+            unk = sum(1 for o in self.obs if o['rule'] == rid and o['verdict'] == UNKNOWN)
+            if unk > spec.get('max_unknown', 10 ** 9): errs.append(f"rule={rid}: {unk} instances are undecidable")
+            for key in spec.get('keys', []):
+                o = by_key.get((rid, key))
+                if o is None: errs.append(f"rule={rid} instance={key} vanished")
+                elif o['verdict'] == UNKNOWN: errs.append(f"rule={rid} instance={key} no longer decidable")
+        return (1 if violations else (2 if errs else 0)), msgs + errs
+
     def finish(self) -> int:
         out = []
         violations, known_hits, unknown_baseline = [], [], []
